@@ -10,7 +10,12 @@ from gapic.schema import wrappers
 
 def main():
     p = json.load(sys.stdin)
-    out = {"uris": [utils.convert_uri_fieldnames(u) for u in p.get("uris", [])], "rules": [], "camel": []}
+    out = {"uris": [], "rules": [], "camel": []}
+    for u in p.get("uris", []):
+        try:
+            out["uris"].append(utils.convert_uri_fieldnames(u))
+        except Exception as e:  # noqa
+            out["uris"].append(f"<raised {type(e).__name__}>")
     for r in p.get("rules", []):
         h = http_pb2.HttpRule()
         if r["pat"] == "verb":
@@ -19,8 +24,11 @@ def main():
             h.custom.kind, h.custom.path = "HEAD", "/x"
         if r.get("body"):
             h.body = r["body"]
-        x = wrappers.HttpRule.try_parse_http_rule(h)
-        out["rules"].append(None if x is None else [x.method, x.uri, x.body])
+        try:
+            x = wrappers.HttpRule.try_parse_http_rule(h)
+            out["rules"].append(None if x is None else [x.method, x.uri, x.body])
+        except Exception as e:  # noqa
+            out["rules"].append({"error": f"{type(e).__name__}: {str(e)[:120]}"})
     out["camel"] = [utils.to_camel_case(n) for n in p.get("names", [])]
     print(json.dumps(out))
 
